@@ -746,6 +746,81 @@ hex_to_integer(const CharT* s, std::size_t length, T& n)
 
 #if defined(JSONCONS_HAS_STD_FROM_CHARS) && JSONCONS_HAS_STD_FROM_CHARS
 
+namespace detail {
+
+    // std::from_chars reports both overflow and underflow as result_out_of_range and
+    // leaves the value unmodified. Returns +-HUGE_VAL or +-0.0 according to the decimal 
+    // exponent of the first significant digit of the literal.
+    inline double out_of_range_value(const char* s, const char* last)
+    {
+        bool negative = false;
+        if (s < last && *s == '-')
+        {
+            negative = true;
+            ++s;
+        }
+        long long int_digits = 0;   // digits before the decimal point, from the first significant one
+        long long frac_zeros = 0;   // zeros after the decimal point that precede the first significant digit
+        bool significant = false;
+        bool after_point = false;
+        for (; s < last && *s != 'e' && *s != 'E'; ++s)
+        {
+            if (*s == '.')
+            {
+                after_point = true;
+            }
+            else if (!after_point)
+            {
+                if (significant || *s != '0')
+                {
+                    significant = true;
+                    ++int_digits;
+                }
+            }
+            else if (!significant)
+            {
+                if (*s == '0')
+                {
+                    ++frac_zeros;
+                }
+                else
+                {
+                    significant = true;
+                }
+            }
+        }
+        long long exponent = 0;
+        if (s < last) // 'e' or 'E'
+        {
+            ++s;
+            bool negative_exponent = false;
+            if (s < last && (*s == '-' || *s == '+'))
+            {
+                negative_exponent = *s == '-';
+                ++s;
+            }
+            for (; s < last && *s >= '0' && *s <= '9'; ++s)
+            {
+                if (exponent < 100000000)
+                {
+                    exponent = exponent*10 + (*s - '0');
+                }
+            }
+            if (negative_exponent)
+            {
+                exponent = -exponent;
+            }
+        }
+        exponent += int_digits > 0 ? int_digits - 1 : -(frac_zeros + 1);
+        if (exponent < 0)
+        {
+            return negative ? -0.0 : 0.0;
+        }
+        return negative ? -HUGE_VAL : HUGE_VAL;
+    }
+
+} // namespace detail
+
 inline to_number_result<char> decstr_to_double(const char* s, std::size_t length, double& val) 
 {
     const char* last = s+length;
@@ -760,8 +835,7 @@ inline to_number_result<char> decstr_to_double(const char* s, std::size_t length
     }
     if (res.ec == std::errc::result_out_of_range)
     {
-        bool negative = (s < last && *s == '-') ? true : false;
-        val = negative ? -HUGE_VAL : HUGE_VAL;
+        val = detail::out_of_range_value(s, last);
     }
 
     return to_number_result<char>{res.ptr,res.ec};
@@ -779,6 +853,10 @@ inline to_number_result<wchar_t> decstr_to_double(const wchar_t* s, std::size_t 
     if (JSONCONS_UNLIKELY(res.ptr != (buf.data()+length)))
     {
         return to_number_result<wchar_t>{s+(res.ptr-buf.data()),std::errc::invalid_argument};
+    }
+    if (res.ec == std::errc::result_out_of_range)
+    {
+        val = detail::out_of_range_value(buf.data(), buf.data()+length);
     }
     return to_number_result<wchar_t>{s+length,res.ec};
 }
